@@ -526,6 +526,8 @@ def call_np(it, name, pos, kw):
         return N.unravel_index(it, pos[0], pos[1], kw.get("order", "C"))
     if name == "insert":
         return N.np_insert(it, *pos, **kw)
+    if name == "linalg.norm":
+        return N.np_vector_norm(ctx, _arr(it, pos[0]), kw.get("ord", pos[1] if len(pos) > 1 else None))
     if name == "sqrt":
         ctx.dropped.add("np.sqrt: value abstracted to an uninterpreted real function SQRT (non-negative on non-negative arguments)")
         SQRT = z3.Function("SQRT", z3.RealSort(), z3.RealSort())
